@@ -20,24 +20,11 @@ FILES = ["SparseGrids/tsgGrid%s.cpp" % g for g in ("Global", "Sequence", "LocalP
 VALUE_WRITERS = ("::setValues", "::addValues", "::resize")
 
 
-def member_txt(e):
-    e = strip(e)
-    return short(e.get("field") or "") if e is not None and e.get("k") == "MemberExpr" else txt(e or {})
-
-
-def run(chk):
-    db = DB("serial")
-    db.load_all()
-    eff = Effects(db)
-    chk.rule("C01-D1.fresh", "in every method of a grid class, after the stored values or the loaded point set change, every path to the exit passes a decision about the hierarchical coefficients: "
-                             "a recompute routine of the family (directly or through a method of the same object that reaches one on all paths) or an explicit assignment of the coefficient member")
-    chk.rule("C01-D2.order", "values are merged before the index set they are ordered by (obligations of C07-D1, evaluated here as well)")
-    chk.rule("C01-D3.kronecker", "the Kronecker surplus algorithm (van_matrix) runs only on the false edge of 'hierarchy is incomplete', and the completeness flag is produced by computeDAGup on the loaded points")
-    chk.rule("C01-D4.tree", "GridLocalPolynomial rebuilds its evaluation tree whenever the loaded point set changes (obligations of C04-D6)")
-
+def fresh_rule(chk, db, eff, rule_id, classes=None):
+    """C01-D1: every change of values / points is followed by a decision about the coefficients (shared with C02 for the classes whose integrate() reads coefficients)"""
     allf = [f for f in db.all_functions(FILES) if f.cls in FAMILIES and not f.d.get("islambda")]
     nfresh = 0
-    for cls, (coeff, recomputes) in FAMILIES.items():
+    for cls, (coeff, recomputes) in [(k_, v_) for k_, v_ in FAMILIES.items() if classes is None or k_ in classes]:
         methods = [f for f in allf if f.cls == cls and not f.d.get("const") and not f.d.get("isctor") and not f.d.get("isdtor")]
         # summaries: does calling m (on this) reach a coefficient decision on all paths?  (fixpoint over this-calls)
         decides = {}
@@ -171,15 +158,35 @@ def run(chk):
             evs = [(w, what) for w, what in events_of(m) if is_reachable(m, w)]
             if not evs:
                 nfresh += 1
-                chk.ob("C01-D1.fresh", m.key + m.sig, "changes are made by helpers that restore the coefficients themselves", True, m.where)
+                chk.ob(rule_id, m.key + m.sig, "changes are made by helpers that restore the coefficients themselves", True, m.where)
             for w, what in evs:
                 nfresh += 1
                 ok = must_pass_after(m, w, lambda x: decision_in(m, x))
                 if not ok and short(m.name) == "setHierarchicalCoefficients":
                     ok = bool(must_pass_before(m, w, lambda x: decision_in(m, x)))
-                chk.ob("C01-D1.fresh", m.key + m.sig, "%s changed by `%s`" % (what, txt(w)[:50]), bool(ok), m.loc(w),
+                chk.ob(rule_id, m.key + m.sig, "%s changed by `%s`" % (what, txt(w)[:50]), bool(ok), m.loc(w),
                        "" if ok else "a path leaves %s with new %s but without recomputing / assigning the %s: evaluate() keeps using stale coefficients" % (short(m.name), what, coeff or "tensor bookkeeping"),
                        "one of %s on every path" % (list(recomputes),))
+    return nfresh
+
+
+def member_txt(e):
+    e = strip(e)
+    return short(e.get("field") or "") if e is not None and e.get("k") == "MemberExpr" else txt(e or {})
+
+
+def run(chk):
+    db = DB("serial")
+    db.load_all()
+    eff = Effects(db)
+    chk.rule("C01-D1.fresh", "in every method of a grid class, after the stored values or the loaded point set change, every path to the exit passes a decision about the hierarchical coefficients: "
+                             "a recompute routine of the family (directly or through a method of the same object that reaches one on all paths) or an explicit assignment of the coefficient member")
+    chk.rule("C01-D2.order", "values are merged before the index set they are ordered by (obligations of C07-D1, evaluated here as well)")
+    chk.rule("C01-D3.kronecker", "the Kronecker surplus algorithm (van_matrix) runs only on the false edge of 'hierarchy is incomplete', and the completeness flag is produced by computeDAGup on the loaded points")
+    chk.rule("C01-D4.tree", "GridLocalPolynomial rebuilds its evaluation tree whenever the loaded point set changes (obligations of C04-D6)")
+
+    allf = [f for f in db.all_functions(FILES) if f.cls in FAMILIES and not f.d.get("islambda")]
+    nfresh = fresh_rule(chk, db, eff, "C01-D1.fresh")
     chk.floor("C01-D1.fresh", nfresh, 25, "value / point-set changes in the grid classes")
 
     # ------------------------------------------------------------------ D2 (shared with C07)
